@@ -2,7 +2,7 @@
 META = {
     "level": 'exploration',
     "technique": 'runtime oracle on the real IncompleteHashTree.set_hashes: a genuine HashTree is the reference; every call is judged (success => tree holds only genuine nodes and no forged leaf was accepted; exception => node list identical to before; asked-for genuine hashes => must succeed); bounded-exhaustive adversarial enumeration plus seeded validation orders',
-    "text": 'Executes the real hashtree.HashTree / IncompleteHashTree. For every tree of 1..8 leaves, every partially-filled state reachable by <=2 earlier successful validations, every target leaf and every genuine/forged/missing choice for each node of its chain (leaf + siblings), combined with an extra (none, forged unknown off-chain node, conflicting value for a known node, unvalidatable genuine node, out-of-range index, the leaf passed twice with different values through hashes= and leaves=), plus a dedicated sweep of calls that give the leaf in both arguments (genuine/forged x genuine/forged, chain as asked/complete/absent/forged) on root-only, partially and fully populated trees of 1..8, 13, 32, 64 leaves, plus self-consistent forged sub-chains and whole chains taken from a different tree, set_hashes is called and judged against the genuine tree. Seeded random validation orders (single and multi-leaf, include_leaf on/off, leaves= vs hashes=) with interleaved forgeries for trees up to 64 leaves (biased to non-powers of two, exercising padding leaves). The enumeration is complete for the stated bound (exhaustive flag); larger trees are sampled. A passive class-level contract (attach_monitor) re-checks rollback and parent/child consistency on every call.',
+    "text": 'Executes the real hashtree.HashTree / IncompleteHashTree. For every tree of 1..8 leaves, every partially-filled state reachable by <=2 earlier successful validations, every target leaf and every genuine/forged/missing choice for each node of its chain (leaf + siblings), combined with an extra (none, forged unknown off-chain node, conflicting value for a known node, unvalidatable genuine node, out-of-range index, the leaf passed twice with different values through hashes= and leaves=), plus a dedicated sweep of calls that give the leaf in both arguments (genuine/forged x genuine/forged, chain as asked/complete/absent/forged) on root-only, partially and fully populated trees of 1..8, 13, 32, 64 leaves, plus self-consistent forged sub-trees (forged leaf + siblings + the volunteered interior hashes up to each height, top sibling withheld/genuine/forged, chain above absent/genuine) on root-only and partially populated trees of the same sizes, plus self-consistent forged sub-chains and whole chains taken from a different tree, set_hashes is called and judged against the genuine tree. Seeded random validation orders (single and multi-leaf, include_leaf on/off, leaves= vs hashes=) with interleaved forgeries for trees up to 64 leaves (biased to non-powers of two, exercising padding leaves). The enumeration is complete for the stated bound (exhaustive flag); larger trees are sampled. A passive class-level contract (attach_monitor) re-checks rollback and parent/child consistency on every call.',
     "note": 'Trusts HashTree as the definition of the genuine tree (its well-formedness is re-checked with the repo pair_hash / empty_leaf_hash) and that forged values are fresh random 32-byte strings (no SHA-256d collisions). Negative indices are not encodable on the wire and are counted as dont_care.',
 }
 LEVEL = "exploration"
@@ -273,7 +273,8 @@ def run(ck):
                        "monitor-rollback", "monitor-consistency", "final-state")
     ck.require_reach("reject-BadHashError", "reject-NotEnoughHashesError", "reject-IndexError", "padding-leaf-in-chain",
                      "forged-consistent-subchain", "conflict-with-known-node", "alt-tree-chain",
-                     "overlapping-arguments-GF", "overlapping-arguments-FG", "overlapping-arguments-FF", "overlapping-arguments-GG", "leaf-args-conflict")
+                     "overlapping-arguments-GF", "overlapping-arguments-FG", "overlapping-arguments-FF", "overlapping-arguments-GG", "leaf-args-conflict",
+                     "forged-subtree-top-withheld", "forged-subtree-top-genuine", "forged-subtree-top-forged")
     ck.skip("negative-index-not-wire-encodable")
 
 
@@ -350,6 +351,7 @@ def _run(ck, hashtree, J):
     sizes += [9, 11, 12, 13, 15, 16] if thorough else [9, 13, 16]   # beyond the stated bound (5-node chains)
 
     _overlapping_arguments(ck, hashtree, J)
+    _forged_subtrees(ck, hashtree, J)
 
     # ---- exhaustive part (stated bound first, then the random orders, then the sizes beyond the bound)
     for n in sizes:
@@ -593,6 +595,75 @@ def _overlapping_arguments(ck, hashtree, J):
                                     break
 
 
+def _forged_subtrees(ck, hashtree, J):
+    """Self-consistent forged sub-trees: forged leaf X + siblings + the (un-asked-for) interior hashes h(child+sibling),
+    level by level up to height h, so that every supplied parent equals the hash of the children supplied with it; the
+    sibling of the topmost forged node is withheld / genuine / forged; the chain above it is absent or genuine.  Nothing
+    in such a call ties the forged sub-tree to the trusted root, so it must be rejected and leave the tree unchanged."""
+    rng = ck.rng("subtrees")
+    for n in list(range(1, 9)) + [13, 32, 64]:
+        W = World(hashtree, rng, n)
+        first = W.first
+        preludes = [("root-only", ())]
+        if n > 1:
+            others = list(range(n))
+            rng.shuffle(others)
+            preludes.append(("partial-1", tuple(others[:1])))
+            preludes.append(("partial-2", tuple(others[:2])))
+            if n > 4:
+                preludes.append(("partial-half", tuple(others[:n // 2])))
+        for pname, prelude in preludes:
+            try:
+                t = W.fresh(prelude, ck)
+            except PreludeFailed:
+                continue
+            targets = list(range(n)) if n <= 8 else sorted(set([0, 1, n // 2, n - 2, n - 1] + [rng.randrange(n) for _ in range(4)]))
+            for tgt in targets:
+                leafnode = first + tgt
+                sibs = W.G.needed_for(leafnode)              # sibling of the path node at level 0, 1, ...
+                for h in range(1, len(sibs) + 1):
+                    for sib_mode in (F_, G_):
+                        for top in ("withheld", "genuine", "forged"):
+                            for rest in ("none", "genuine"):
+                                if h == len(sibs) and (top != "withheld" or rest != "none"):
+                                    continue                 # the top of the sub-tree is the root itself
+                                X = W.F[leafnode]
+                                hashes = {}
+                                node, val = leafnode, X
+                                for lvl in range(h):
+                                    sib = sibs[lvl]
+                                    sv = W.F[sib] if sib_mode == F_ else W.G[sib]
+                                    hashes[sib] = sv
+                                    val = hashtree.pair_hash(val, sv) if node < sib else hashtree.pair_hash(sv, val)
+                                    node = (node - 1) // 2
+                                    if node != 0:
+                                        hashes[node] = val   # the volunteered interior node, consistent with its children
+                                if h < len(sibs):
+                                    if top == "genuine":
+                                        hashes[sibs[h]] = W.G[sibs[h]]
+                                    elif top == "forged":
+                                        hashes[sibs[h]] = W.F[sibs[h]]
+                                    if rest == "genuine":
+                                        for sib in sibs[h + 1:]:
+                                            hashes[sib] = W.G[sib]
+                                if (tgt + h) % 2:            # vary dict insertion order: top-down instead of bottom-up
+                                    hashes = dict(reversed(list(hashes.items())))
+                                ck.hit("forged-subtree-top-" + top)
+                                v = J.call(W, t, hashes, {tgt: X},
+                                           {"scenario": "self-consistent forged sub-tree", "tree_state": pname,
+                                            "validated_before": list(prelude)[:16], "target_leaf": tgt, "height": h,
+                                            "lower_siblings": sib_mode, "top_sibling": top, "chain_above": rest,
+                                            "top_forged_node": node, "asked": sorted(t.needed_hashes(tgt, include_leaf=True))},
+                                           hashes_kw=bool((tgt + h) % 3))
+                                ck.case("forged-subtree", key=(n, pname, tgt, h, sib_mode, top, rest), nontrivial=True,
+                                        sample={"nleaves": n, "state": pname, "target": tgt, "height": h, "top": top})
+                                if v != "rejected":
+                                    try:
+                                        t = W.fresh(prelude, ck)
+                                    except PreludeFailed:
+                                        break
+
+
 def _refresh(W, done):
     try:
         return W.fresh(done)
@@ -723,6 +794,8 @@ def _random_orders(ck, hashtree, J):
 #  caught  HashTree pads with empty_leaf_hash(0)                           -> genuine-tree-malformed
 #  caught  computed parents not added to remove_upon_failure               -> state-changed-on-reject
 #  caught  parent comparison skipped for even-numbered nodes               -> state-changed-on-reject
+#  caught  a parent supplied in the same call and equal to h(children) dropped from the check set when its own parent is
+#          present (seeded/C35-5; needs the top sibling WITHHELD, which round 1's sub-chains never did) -> forged-leaf-accepted
 #  caught  leaves=/hashes= conflict check removed, either argument winning (seeded/C35-4: hashes wins, the caller's forged
 #          leaves= value is dropped and the call returns normally)      -> conflicting-leaf-arguments-accepted
 #          (round 1 of this check counted that as dont_care; wrong: a normal return tells the caller its leaf is valid)
